@@ -29,6 +29,8 @@ func main() {
 		os.Exit(dbgCallees(os.Args[2:]))
 	case "dump":
 		os.Exit(dump(os.Args[2:]))
+	case "terms":
+		os.Exit(terms(os.Args[2:]))
 	case "list":
 		for _, id := range props.IDs() {
 			fmt.Println(id)
